@@ -636,7 +636,8 @@ def stats_oracle(ctx, tdir):
     hist.append("fit_perform(folder, out, profile)")
     # the user edits the profile and runs the batch fit again into the same results directory
     pf["fit param R value"] = 7e-6
-    hist.append("profile['fit param R value'] = 7e-6")
+    pf["rating regressor"] = "Decision Tree"
+    hist.append("profile['fit param R value'] = 7e-6; profile['rating regressor'] = 'Decision Tree'")
     one_run("second run into the same directory", pp)
     hist.append("fit_perform(folder, out, profile)")
     one_run("legacy-format profile (key = value lines)", pl)
